@@ -45,12 +45,7 @@ let rec int_of_nat = function O -> 0 | S n -> 1 + int_of_nat n
 let ints s = List.filter_map (fun x -> if x = "" then None else Some (n_of_string x)) (String.split_on_char ' ' s)
 let show l = String.concat " " (List.map string_of_n l)
 
-let dispatch model cfg evs obs =
-  match model with
-  | "pure" -> run_check_pure cfg evs obs
-  | "rwmutex" -> run_check_rwmutex cfg evs obs
-  | "mutex" -> run_check_mutex cfg evs obs
-  | _ -> failwith ("unknown model " ^ model)
+let dispatch = Dispatch.dispatch
 
 let () =
   let ic = open_in Sys.argv.(1) in
